@@ -284,13 +284,20 @@ def r20_6(ctx):
     j = joins[0]
     lst = U(j.targets[0].value)
     ix = U(j.targets[0].slice)
+    # the statements that make up the join: the innermost block the assignment stands in (it may compute the two halves first)
+    block = [j]
+    for n in ast.walk(fi.node):
+        for fld in ("body", "orelse", "finalbody"):
+            b = getattr(n, fld, None)
+            if isinstance(b, list) and any(x is j for x in b):
+                block = b[: b.index(j) + 1]
     cases = [("#define A(x) \\", "    foo(x)"), ("#define fNEWVAL \\   ", "\tnew_value"), ("#define fX(A) if (A) \\", "  else D"), ("#define T int32_t \\", " tmp1;"), ("#define U unsigned\\", "    char c")]
     for l1, l2 in cases:
         box = {}
 
         def once(i, l1=l1, l2=l2):
             env = {lst: [l1, l2], ix: 0}
-            i.stmt(j, env, None)
+            i.block(block, env, None)
             return env[lst]
 
         outs = Interp(idx).explore(once)
